@@ -248,7 +248,18 @@ func (e *Exec) Send(ctx int, hdr, body []byte) int {
 }
 
 func (e *Exec) SetOpt(ctx int, name string, lean string, val interface{}) string {
-	return e.OpSync(fmt.Sprintf("setopt %d %s %s", ctx, name, lean), func() error { return e.ctxs[ctx].SetOption(name, val) })
+	return e.OpSync(fmt.Sprintf("setopt %d %s %s", ctx, name, lean), func() error {
+		if b, ok := val.([]byte); ok {
+			// the value is the caller's: it is reused for something else as soon as the call has returned
+			cp := append([]byte{}, b...)
+			err := e.ctxs[ctx].SetOption(name, cp)
+			for i := range cp {
+				cp[i] ^= 0xFF
+			}
+			return err
+		}
+		return e.ctxs[ctx].SetOption(name, val)
+	})
 }
 
 func (e *Exec) OpenCtx(id int) string {
